@@ -7,6 +7,7 @@ import (
 	"time"
 
 	"github.com/go-spatial/geom"
+	"github.com/go-spatial/geom/cmp"
 	"github.com/go-spatial/geom/encoding/gpkg"
 	"github.com/pdok/texel/processing"
 )
@@ -251,6 +252,10 @@ func (target *TargetGeopackage) writeFeatures(features []processing.Feature) {
 			log.Fatalf("Could not get a result summary from the prepared statement for fid %s: %s", fid, err)
 		}
 
+		if cmp.IsEmptyGeo(f.Geometry()) {
+			// an empty geometry (e.g. a POINT EMPTY, stored as NaN NaN) has no extent and would poison the page's extent
+			continue
+		}
 		if ext == nil {
 			ext, err = geom.NewExtentFromGeometry(f.Geometry())
 			if err != nil {
